@@ -22,6 +22,7 @@ import (
 	"reflect"
 
 	"github.com/cloudwego/eino/internal/generic"
+	"github.com/cloudwego/eino/internal/verifhook"
 	"github.com/cloudwego/eino/schema"
 )
 
@@ -89,6 +90,7 @@ func NewGraphMultiBranch[T any](condition GraphMultiBranchCondition[T], endNodes
 			}
 			ret = append(ret, end)
 		}
+		verifhook.Order(len(ret), func(i, j int) bool { return ret[i] < ret[j] }, func(i, j int) { ret[i], ret[j] = ret[j], ret[i] })
 
 		return ret, nil
 	}
@@ -112,6 +114,7 @@ func NewStreamGraphMultiBranch[T any](condition StreamGraphMultiBranchCondition[
 			}
 			ret = append(ret, end)
 		}
+		verifhook.Order(len(ret), func(i, j int) bool { return ret[i] < ret[j] }, func(i, j int) { ret[i], ret[j] = ret[j], ret[i] })
 		return ret, nil
 	}
 
